@@ -43,6 +43,12 @@ CHECKS = {
         "Trusted: the regex module finds a match when the text is in the language and no cut (possessive/atomic) construct is present; pefile.",
         "DESIGN.md 3/C11",
     ),
+    "C12": (
+        "abstract interpretation over a layout model of urlsplit (presence partitions, separator symbols, sum axiom) and the split-sum / split-offset lemmas, Fourier-Motzkin entailment of span == component position on every presence path; provenance terms; guard truth tables; exhaustive evaluation of the '..' pop guard over the shapes of the segment stack",
+        "Decides: children are computed over the text that becomes the URL node's value; on every presence path each part's span equals the position and length of its component (authority parts shifted by the authority's start; user name / password / host placed as rsplit('@') / split(':') imply); values are the decode of the same component; MixedCase / url.dotpath / windows.dotpath guards; the root of an absolute path is never cancelled; Windows host and file-name children sit on their segments. Dot-segment semantics beyond root preservation and ntpath.normpath are trusted/not decided.",
+        "Trusted: urlsplit, unquote_to_bytes, ntpath. parse_url is analysed under the precondition find_urls establishes (scheme and authority present).",
+        "DESIGN.md 3/C12",
+    ),
     "C13": (
         "provenance terms from abstract interpretation (conversion applied to a group of the match whose whole span is the node span), regex-automaton facts (group alphabets, minimum lengths, language containment/equality), guard truth table for find_base64's rejection rules, structural match of apply_xor_key/dexor",
         "Decides the structural half of exactness: which stdlib conversion is applied to exactly which delimited text and reported over exactly which span with which label; the acceptance thresholds (22 chars, multiple of 4, > 6 distinct, not pure hex/letters, slash rule; 10 same-case hex pairs; > 500 array elements) and that the documented call forms are matched as one unit; xor applies b ^ key to every byte of the parent's value with the stated key. Bit-exactness of binascii and the key xortool guesses are not decided.",
